@@ -42,11 +42,11 @@ pub fn main(args: &[String], w: &mut dyn Write) {
         if tcs.is_empty() && r.chance(3, 4) { continue; }
         // outputs: own lines (passes when the expectations are plain), changed output, changed exit code
         let outs: Vec<Output> = tcs.iter().map(|t| {
-            let scen = r.below(4);
+            let scen = r.below(5);
             let mut out: Vec<u8> = vec![];
             if scen == 1 { out = crate::p_gen::gen_output(&mut r); }
             else { for e in &t.expectations { out.extend(e.original_string().as_bytes()); out.push(b'\n'); } }
-            let code = if scen == 2 { 7 } else { t.exit_code.unwrap_or(0) };
+            let code = if scen == 2 { 7 } else if scen == 4 { 0 } else { t.exit_code.unwrap_or(0) };   // 4: ends with 0 although another code was expected
             Output { stdout: out.into(), stderr: vec![].into(), exit_code: ExitStatus::Code(code) }
         }).collect();
         let res = std::panic::catch_unwind(std::panic::AssertUnwindSafe(|| {
